@@ -118,5 +118,5 @@ pub fn run(_pid: &str, _func: &str, replay: Option<Value>, seed: u64) -> Value {
         let s: Sym = (rng.below(2) == 0, word(&mut rng, 5), if rng.below(3) == 0 { "git".into() } else { word(&mut rng, 3) });
         if let Some(v) = check_symbol(&s) { return hit(json!({"kind": "symbol", "tag": s.0, "name": s.1, "remote": s.2}), v, "parse_git_ref"); }
     }
-    json!({"found": false, "note": "scope exhausted: parse_git_ref on 9 namespace prefixes x all words of <= 3 pieces (<= 4 under refs/remotes/) over {a,/,HEAD,git,H,b}: layout, import->export (export = its specification; to_git_ref_name is private), pairwise distinct symbols; export->import for all names x remotes of <= 3 pieces, both kinds; 20000 random longer refs/symbols", "scope": "small"})
+    json!({"found": false, "note": "scope exhausted: parse_git_ref on 9 namespace prefixes x all words of <= 3 pieces (<= 4 under refs/remotes/) over {a,/,HEAD,git,H,b,head,Git}: layout, import->export (export = its specification; to_git_ref_name is private), pairwise distinct symbols; export->import for all names x remotes of <= 3 pieces, both kinds; 20000 random longer refs/symbols", "scope": "small"})
 }
